@@ -107,7 +107,11 @@ def solve_lp(
                 f"to continuous. linprog does not support integer programming. "
                 f"For true MIP, consider scipy.optimize.milp or PuLP.",
                 UserWarning,
-                stacklevel=2,
+                # attribute the warning to the caller of Problem.solve(), as the SciPy
+                # route does: with stacklevel=2 every call site shared one location
+                # (problem.py) and Python's once-per-location rule silenced the
+                # relaxation of every later model with the same variable names
+                stacklevel=3,
             )
 
     # Check SciPy version and select method
